@@ -310,9 +310,19 @@ def load_graph(dot):
 
 def main(tier, replay=None):
     global _RAW, _N
-    chk = common.Check(PID, tier, "model_checking")
     if replay:
-        return replay_file(replay)
+        import json
+        with open(replay) as fh:
+            if "behaviour" in fh.read(200000) or True:
+                fh.seek(0)
+                rp = json.load(fh)
+        if "case" in rp or "edge" in rp:
+            return replay_file(replay)
+        from harness.checks import system as S
+        return S.replay_main(PID, replay)
+    from harness.checks import system as S
+    sc = S.SystemCheck(PID, tier)
+    chk = sc.chk
     work = common.tmpdir("c02-")
     try:
         for name, (consts, tiers) in CONFIGS.items():
@@ -370,13 +380,19 @@ def main(tier, replay=None):
                   f"{len(ids)} states and {ne} edges replayed on the real code ({res['wall_s']} s TLC)", flush=True)
     finally:
         common.rmtree(work)
+    # system-level binding: the P the sampler actually draws from and credits, in recorded executions
+    # (catches a stale cached P, which no direct call of inf_retis can show)
+    q = tier == "quick"
+    sc.replay_behaviours("N4W3S5", {"N": 4, "Workers": 3, "Steps": 5, "MaxPn": 16}, 100 if q else 1500, 20)
+    sc.random_runs(S.standard_random_specs(tier, chk.seed + 2, [4, 5, 6] if q else [4, 5, 6, 7], lambda n: list(range(1, n)),
+                                           40 if q else 200, 32 if q else 320, restarts=False, moves_mix=True))
     chk.cov["exhaustive"] = True
     chk.assumptions += [
         "floating-point P is compared with the exact rational to 1e-10",
         "sizes above the TLC bounds (N<=7 for 0/1 weights, N<=5 weighted) are not explored by this tier",
         "random_prob (blocks larger than 12, Monte Carlo by design) is outside the exact check",
     ]
-    return chk.finish(
+    return sc.finish(
         rule="states of Perm.tla = reachable (weight matrix, lock set) pairs enumerated by TLC; a state is "
              "non-trivial when its exact P has an entry other than 0 or 1; distinct by (config, W, locks)")
 
